@@ -205,16 +205,19 @@ pub fn scenario<const N: usize, const L: usize, const GET: bool>(pats: [&'static
     while k < N {
         let g = t.get(pats[k]);
         let mut expect = 0;
+        let mut only = 0;
         let mut j = 0;
         while j < N {
             if live[j] && same_str(pats[j], pats[k]) {
                 expect += 1;
+                only = j;
             }
             j += 1;
         }
         assert!(g.len() == expect);
         if expect == 1 {
-            assert!(*g[0] == val[k]);
+            // the single live value stored under this pattern (not necessarily id k's own)
+            assert!(*g[0] == val[only]);
         }
         std::mem::forget(g);
         k += 1;
@@ -269,10 +272,21 @@ tree_harness!(c12_tree2_cache_none_8, 2, 2, ["ab", "a(.)"], false, Op::Cache(255
 tree_harness!(c12_tree2_cache_l0_1, 2, 2, ["ab", "a(.)"], false, Op::Cache(0, 1));
 tree_harness!(c12_tree2_cache_l1_1, 2, 2, ["ab", "a(.)"], false, Op::Cache(1, 1));
 tree_harness!(c12_tree2_cache_l1_8, 2, 2, ["ab", "a(.)"], false, Op::Cache(1, 8));
+// disjoint patterns: the root is an empty-prefix node (pattern ".*"); one pattern contains a literal
+// newline, so a cached root that stopped matching haystacks with a newline would lose a lookup
+tree_harness!(c12_tree2_disjoint_newline_cache_l0, 2, 2, ["a\n", "b(.)"], false, Op::Cache(0, 1));
 tree_harness!(c12_tree2_ci_cache_before_insert, 2, 2, ["aB", "A(.)"], true, Op::CacheBeforeLastInsert);
 // ---- one pattern: the emptied tree keeps its case mode (RegexTreeMap::retain writes the root back)
 tree_harness!(c08_tree1_ci_retain_none_reinsert, 1, 2, ["aB"], true, Op::RetainNoneReinsert(0));
+// two ids stored under ONE pattern (a single leaf): removing one keeps the other
+tree_get_harness!(c08_tree1_two_ids_remove_one, 2, 2, ["a(.)", "a(.)"], false, Op::Remove(0));
 tree_get_harness!(c08_tree1_replace_and_get, 1, 2, ["a(.)"], false, Op::Replace(0));
+#[kani::proof]
+#[kani::unwind(12)]
+#[kani::stub(std::mem::swap, typed_swap)]
+fn c08_tree2_longer_patterns_find() {
+    scenario::<2, 3, false>(["a(.)b", "a(.)(.)"], false, Op::None);
+}
 tree_harness!(c08_tree2_disjoint_find, 2, 2, ["ab", "b(.)"], false, Op::None);
 tree_harness!(c08_tree1_ci_remove_reinsert, 1, 2, ["aB"], true, Op::RemoveReinsert(0));
 tree_harness!(c08_tree2_ci_retain_none_reinsert, 2, 2, ["aB", "A(.)"], true, Op::RetainNoneReinsert(0));
@@ -298,8 +312,21 @@ tree_harness!(c12_tree3_cache_then_remove, 3, 2, ["ab", "a(.)", "b"], false, Op:
 #[kani::unwind(9)]
 #[kani::stub(std::mem::swap, typed_swap)]
 fn c12_tree1_cache_any_limit_level() {
-    let mut t: RegexTreeMap<u8> = RegexTreeMap::new(false);
-    t.insert("a(.)", "0", 0);
+    cache_any(false, "a(.)");
+}
+
+/// the same on a case-insensitive tree with a mixed-case pattern: a compiled regex must fold case
+/// exactly like the regex built on the fly
+#[kani::proof]
+#[kani::unwind(9)]
+#[kani::stub(std::mem::swap, typed_swap)]
+fn c12_tree1_ci_cache_any_limit_level() {
+    cache_any(true, "aB");
+}
+
+fn cache_any(ci: bool, pat: &'static str) {
+    let mut t: RegexTreeMap<u8> = RegexTreeMap::new(ci);
+    t.insert(pat, "0", 0);
     let limit: u64 = kani::any();
     let level: Option<u64> = kani::any();
     let left = t.cache(limit, level);
@@ -311,9 +338,84 @@ fn c12_tree1_cache_any_limit_level() {
     let hb = ascii_bytes::<2>();
     let h = as_str(&hb);
     let found = t.find(h);
-    assert!((found.len() == 1) == linear("a(.)", h, false));
+    assert!((found.len() == 1) == linear(pat, h, ci));
+    kani::cover!(cached == 1 && found.len() == 1);
     kani::cover!(cached == 1);
     kani::cover!(cached == 0 && limit > 0);
     std::mem::forget(found);
     std::mem::forget(t);
+}
+
+// ------------------------------------------------------------------------------------------------
+// C17 (tree half): the values found in the MATCHED leaves of trace(h) are exactly the values find(h)
+// returns, and every traced item reports the number of values stored below it.
+fn trace_equals_find<const N: usize>(pats: [&'static str; N], ci: bool) {
+    let mut t: RegexTreeMap<u8> = RegexTreeMap::new(ci);
+    let mut k = 0;
+    while k < N {
+        t.insert(pats[k], IDS[k], k as u8);
+        k += 1;
+    }
+    let hb = ascii_bytes::<2>();
+    let h = as_str(&hb);
+    let found = t.find(h);
+    let mut seen = [0u8; N];
+    let mut i = 0;
+    while i < found.len() {
+        seen[*found[i] as usize] += 1;
+        i += 1;
+    }
+    let tr = t.trace(h);
+    assert!(tr.verif_count() == N as u64);
+    let mut traced = [0u8; N];
+    // root: a leaf (values at the root) or a node with leaf children (depth <= 2 for these menus)
+    if tr.verif_matched() {
+        let vs = tr.verif_values();
+        let mut i = 0;
+        while i < vs.len() {
+            traced[*vs[i] as usize] += 1;
+            i += 1;
+        }
+        let ch = tr.verif_children();
+        let mut c = 0;
+        while c < ch.len() {
+            assert!(ch[c].verif_children().is_empty());
+            if ch[c].verif_matched() {
+                let vs = ch[c].verif_values();
+                let mut i = 0;
+                while i < vs.len() {
+                    traced[*vs[i] as usize] += 1;
+                    i += 1;
+                }
+            }
+            c += 1;
+        }
+    }
+    let mut any = false;
+    let mut k = 0;
+    while k < N {
+        assert!(traced[k] == seen[k]);
+        assert!(seen[k] == linear(pats[k], h, ci) as u8);
+        any = any || seen[k] == 1;
+        k += 1;
+    }
+    kani::cover!(any);
+    kani::cover!(!any);
+    std::mem::forget(tr);
+    std::mem::forget(found);
+    std::mem::forget(t);
+}
+
+#[kani::proof]
+#[kani::unwind(9)]
+#[kani::stub(std::mem::swap, typed_swap)]
+fn c17_tree1_trace_equals_find() {
+    trace_equals_find::<1>(["a(.)"], false);
+}
+
+#[kani::proof]
+#[kani::unwind(9)]
+#[kani::stub(std::mem::swap, typed_swap)]
+fn c17_tree2_trace_equals_find() {
+    trace_equals_find::<2>(["ab", "a(.)"], false);
 }
